@@ -6,6 +6,12 @@ ALL = ["C%02d" % i for i in range(1, 21)]
 
 # property id -> dict(category, text, note, technique, design_ref)
 CLAIMED = {
+    "C15": dict(
+        category="other",
+        text="The serializer dispatch is evaluated abstractly over 13 exact-type classes: encoder and flags chosen by the writer, decoder chosen by the reader for those flags with and without the COMPRESSED bit, whether the pair is a type-preserving inverse pair, that the serialized form derives from the value and is bytes; flags are distinct single bits below 2**16; CompressedSerde's decision is evaluated over all 18 orderings of (len vs threshold, threshold vs 0, compressed vs original) for 'flag iff compressed form stored' and 'never store the larger form', and decompress iff the bit is set; pickle protocol wiring by def-use. Library round trips (pickle, codecs, zlib) are trusted.",
+        note="Trusted: CPython ast; path interpreter; inverse-pair table for the library encoders.",
+        technique="finite abstract evaluation over exact-type classes and length orderings; def-use",
+    ),
     "C02": dict(
         category="other",
         text="Abstract wire-fragment evaluation of all 25 public command methods of Client with the exchange function inlined (347 wire variants): each must match the protocol grammar of its verb using only literals, sanitised keys, sanitised integers and a length-coupled data block (no tainted fragment); all validation precedes connect/send; integer sanitizers decided over type classes; the empty key and the per-class key wrappers are checked here, key sanitizer strength itself in C20. Numeric ranges, exotic codecs and a server-grade parser are not decided.",
